@@ -437,6 +437,46 @@ class SeqMixin:
             return r
         raise Unsupported(f'in on {type(cont).__name__}')
 
+    def solve_part(self, p, ek, key):
+        """membership of `key` in { ek(vars) | guard(vars) }: when every variable occurs as a key
+        component `v` or `c + v`, the variables are solved for and no quantifier is needed"""
+        vs = p.vars
+        if not vs:
+            return z3.And(zbool(p.guard()), *[a == b for a, b in zip(ek, key)])
+        sol = {}
+        rest = []
+        for a, b in zip(ek, key):
+            a = z3.simplify(a) if is_z3(a) else z3.IntVal(a)
+            hit = None
+            for v in vs:
+                if v.get_id() in sol:
+                    continue
+                if a.eq(v):
+                    hit = (v, b)
+                elif z3.is_add(a) and a.num_args() == 2:
+                    x0_, x1_ = a.arg(0), a.arg(1)
+                    if x1_.eq(v) and not self.mentions(x0_, vs):
+                        hit = (v, b - x0_)
+                    elif x0_.eq(v) and not self.mentions(x1_, vs):
+                        hit = (v, b - x1_)
+                if hit:
+                    break
+            if hit:
+                sol[hit[0].get_id()] = hit
+            else:
+                rest.append((a, b))
+        if len(sol) == len(vs):
+            pairs = list(sol.values())
+            return z3.And(z3.substitute(zbool(p.guard()), *pairs),
+                          *[z3.substitute(a, *pairs) == b for a, b in rest])
+        body = z3.And(zbool(p.guard()), *[a == b for a, b in zip(ek, key)])
+        return z3.Exists(vs, body)
+
+    def mentions(self, t, vs):
+        from .lib import _consts
+        ids = {v.get_id() for v in vs}
+        return any(c.get_id() in ids for c in _consts(t))
+
     def gen_member(self, g, x):
         alts = []
         for p in self.rename_parts(g):
